@@ -184,7 +184,7 @@ class HeapOps:
         return self._set_field(st_, *a, **k)
 
     def _set_field(self, st, obj, name, ty, val: V):
-        val = T.coerce(val, ty)
+        val = self.ex.coerce_store(st, val, ty, name)
         for k, s in enumerate(ty.sorts()):
             key = f"{name}#{k}"
             st.heap[key] = z3.Store(self.arr(st, key, [Obj], s), obj, val.terms[k])
@@ -202,7 +202,7 @@ class HeapOps:
         return self._set_attr(st_, *a, **k)
 
     def _set_attr(self, st, obj, name, sc, ty, val):
-        val = T.coerce(val, ty)
+        val = self.ex.coerce_store(st, val, ty, '@' + name)
         for k, s in enumerate(ty.sorts()):
             key = f"@{name}#{k}"
             a = self.arr(st, key, [Obj, z3.IntSort()], s)
@@ -233,7 +233,7 @@ class HeapOps:
         return self._list_put(st_, *a, **k)
 
     def _list_put(self, st, lty: T.List, r, i, val: V):
-        val = T.coerce(val, lty.t)
+        val = self.ex.coerce_store(st, val, lty.t, 'list element')
         old = self.list_get(st, lty, r, i)
         for k, s in enumerate(lty.t.sorts()):
             key = lty.k_elem(k)
@@ -275,7 +275,7 @@ class HeapOps:
         return self._dict_put(st_, *a, **k)
 
     def _dict_put(self, st, dty, r, k, val):
-        val = T.coerce(val, dty.v)
+        val = self.ex.coerce_store(st, val, dty.v, 'dict value')
         key = dty.k_dom()
         a = self.arr(st, key, [Obj, self._ks(dty)], z3.BoolSort())
         st.heap[key] = z3.Store(a, r, z3.Store(z3.Select(a, r), k, z3.BoolVal(True)))
@@ -490,6 +490,16 @@ class Exec:
 
     def note_ref(self, e):
         self.known_refs.append(e)
+
+    def coerce_store(self, st, v, ty, what=""):
+        """Coercion at a store: a possibly-None value flowing into a location declared non-optional is a
+        type-safety obligation (discharged by the guarding test on the path)."""
+        if isinstance(v.ty, T.Opt) and not isinstance(ty, T.Opt) and ty is not T.NoneT:
+            if not self.spec:
+                self.oblige(st, "safety", f"non-optional-store({what})", z3.Not(v.terms[0]), None,
+                            f"None stored into {what} declared {ty}")
+            v = T.opt_inner(v)
+        return T.coerce(v, ty)
 
     # -- truthiness ----------------------------------------------------------
     def truthy(self, st, v: V):
